@@ -168,6 +168,10 @@ def run(ctx):
         raise vlib.Machinery("vacuity: LRU_MCc explored depth %d, expected 13 (2 goroutines x 2 calls x call/linearise/return)" % mcc.depth)
 
     _lap(ctx, "model checking")
+    inductive = None
+    if not q:
+        inductive = _inductive(ctx)
+        _lap(ctx, "inductive invariant (Apalache)")
     # ------------------------------------------------------------------ 3. long random histories (TLC simulation)
     nexh = len(scen)
     sims = []
@@ -332,11 +336,123 @@ def run(ctx):
                        "rejection_signatures": {s: len(l) for s, l in cgroups.items()}, "race_reports": 1 if races else 0,
                        "matched": {a: ccov.get(a, 0) for a in CONC_COVER}},
         "device_check": {"module": "LRU_MC/LRU_MCc", "distinct_states": mcc.distinct, "depth": mcc.depth},
+        "inductive_invariant": inductive if inductive is not None else "thorough tier only",
         "canaries_rejected": canaries,
         "wall_s_by_phase": dict(ctx.laps),
         "samples": samples,
     }
     return "model_checking", covd, assumptions
+
+
+# ---------------------------------------------------------------------- inductive invariant (Apalache, thorough tier)
+def _defs(text):
+    """definitions of a TLA+ text, comments stripped and whitespace collapsed: {name: body}"""
+    text = re.sub(r"\\\*[^\n]*", "", text)
+    text = re.sub(r"\(\*.*?\*\)", "", text, flags=re.S)
+    out, name, buf = {}, None, []
+    for line in text.splitlines():
+        m = re.match(r"^([A-Za-z]\w*)(\([^)]*\))?\s*==", line)
+        if m:
+            if name:
+                out[name] = " ".join(" ".join(buf).split())
+            name, buf = m.group(1), [line]
+        elif name is not None:
+            if line.startswith("----") or line.startswith("====") or re.match(r"^(VARIABLES?|CONSTANTS?)\b", line):
+                out[name] = " ".join(" ".join(buf).split())
+                name, buf = None, []
+            else:
+                buf.append(line)
+    if name:
+        out[name] = " ".join(" ".join(buf).split())
+    return out
+
+
+def _apalache(wd, module, init, inv, length, timeout):
+    """one apalache-mc check; returns (status, seconds, tail) with status proved | counterexample | timeout | crash"""
+    import os, signal, subprocess, time
+    t0 = time.time()
+    p = subprocess.Popen(["apalache-mc", "check", "--config=LRU_Ind.cfg", "--init=" + init, "--inv=" + inv, "--length=%d" % length,
+                          "--out-dir=" + os.path.join(wd, "_out_%s_%s_%s" % (module, init, inv)), module + ".tla"],
+                         cwd=wd, stdout=subprocess.PIPE, stderr=subprocess.STDOUT, text=True, start_new_session=True)
+    try:
+        out, _ = p.communicate(timeout=timeout)
+    except subprocess.TimeoutExpired:
+        try:
+            os.killpg(p.pid, signal.SIGKILL)      # the process group of this very child, nothing else
+        except ProcessLookupError:
+            pass
+        p.communicate()
+        return "timeout", round(time.time() - t0, 1), ""
+    dt = round(time.time() - t0, 1)
+    if "The outcome is: NoError" in out and "EXITCODE: OK" in out:
+        return "proved", dt, out[-400:]
+    if "The outcome is: Error" in out and "EXITCODE: ERROR (12)" in out:
+        return "counterexample", dt, "\n".join(l for l in out.splitlines() if "violated" in l or "outcome" in l)
+    return "crash", dt, out[-1500:]
+
+
+def _inductive(ctx):
+    """Apalache: IndInv (and the per-call StepInv) of spec/LRU_Ind.tla hold initially and are preserved by every Get/Put from EVERY
+    state satisfying IndInv - i.e. for histories of any length.  Returns the evidence record; never produces a finding."""
+    import os, shutil
+    wd = os.path.join(ctx.scratch, "apalache")
+    os.makedirs(wd, exist_ok=True)
+    for f in ("LRU_Ind.tla", "LRU_Ind.cfg"):
+        shutil.copy(os.path.join(ctx.scratch, f), wd)
+    src = open(os.path.join(wd, "LRU_Ind.tla")).read()
+    # the typed copy must say what LRU.tla says: every definition between the COPY markers is compared with LRU.tla
+    copy = src[src.index("\\* BEGIN COPY"):src.index("\\* END COPY")]
+    copy = re.sub(r"\\\* @type:[^;]*;", "", copy)
+    mine, orig = _defs(copy), _defs(open(os.path.join(ctx.scratch, "LRU.tla")).read())
+    if len(mine) < 12:
+        raise vlib.Machinery("LRU_Ind.tla: only %d copied definitions recognised" % len(mine))
+    for name, body in mine.items():
+        if orig.get(name) != body:
+            raise vlib.Machinery("LRU_Ind.tla is out of sync with LRU.tla: definition %s differs\n  LRU:     %s\n  LRU_Ind: %s" % (name, orig.get(name), body))
+    cfg = open(os.path.join(wd, "LRU_Ind.cfg")).read()
+    mincap, maxcap = int(re.search(r"MinCap\s*=\s*(-?\d+)", cfg).group(1)), int(re.search(r"MaxCap\s*=\s*(-?\d+)", cfg).group(1))
+    # canary: the same module with the unrepaired Put (a nil Put of an absent key stores an entry) must NOT be inductive
+    can = src.replace("MODULE LRU_Ind", "MODULE LRU_IndCanary")
+    can, n = re.subn(r"IF v = Nil THEN Without\(q, k\)", "IF v = Nil /\\ Has(q, k) THEN Without(q, k)", can)
+    if n != 1:
+        raise vlib.Machinery("LRU_Ind canary: Put's delete branch not found")
+    open(os.path.join(wd, "LRU_IndCanary.tla"), "w").write(can)
+    T = 1200
+    jobs = {"base: Init => IndInv": ("LRU_Ind", "Init", "IndInv", 0),
+            "step: IndInv /\\ Next => IndInv'": ("LRU_Ind", "IndInit", "IndInv", 1),
+            "results: IndInv /\\ Next => StepInv": ("LRU_Ind", "IndInit", "StepInv", 1),
+            "canary (unrepaired Put is not inductive)": ("LRU_IndCanary", "IndInit", "IndInv", 1)}
+    with cf.ThreadPoolExecutor(max_workers=len(jobs)) as ex:
+        futs = {k: ex.submit(_apalache, wd, m, i, v, l, T) for k, (m, i, v, l) in jobs.items()}
+        res = {k: f.result() for k, f in futs.items()}
+    shutil.rmtree(wd, ignore_errors=True)
+    for k, (st, dt, tail) in res.items():
+        if st == "crash":
+            raise vlib.Machinery("apalache-mc crashed on '%s':\n%s" % (k, tail))
+    ck = "canary (unrepaired Put is not inductive)"
+    if res[ck][0] == "proved":
+        raise vlib.Machinery("Apalache accepted the canary (a Put that stores nil entries) as inductive: the proof set-up is vacuous")
+    obligations = {k: {"status": st, "wall_s": dt} for k, (st, dt, _) in res.items() if k != ck}
+    for k, (st, dt, tail) in res.items():
+        if k != ck and st == "counterexample":
+            # a counterexample to induction is an error of the model / invariant, never a statement about utls
+            raise vlib.Machinery("LRU_Ind: '%s' has a counterexample to induction - the invariant or the model needs fixing:\n%s" % (k, tail))
+    proved = all(o["status"] == "proved" for o in obligations.values())
+    return {
+        "tool": "apalache-mc 0.58.0 (symbolic, SMT), spec/LRU_Ind.tla",
+        "established": proved,
+        "verdict": "proved" if proved else "not established (an obligation did not finish within %d s; neither a pass nor a violation)" % T,
+        "obligations": obligations,
+        "canary": {"status": res[ck][0], "wall_s": res[ck][1]},
+        "statement": "for every capacity %d..%d, all integer keys and values (unbounded), and every history of Get/Put of ANY length: at most cap entries, "
+                     "keys unique, no nil value stored, the recency list is a permutation of the map's key set; every call returns what LRU!GetRes/PutQ define, "
+                     "moves the used key to the front, evicts only the least recently used entry and only when full, and keeps the order and values of all other entries"
+                     % (mincap, maxcap),
+        "scope": {"capacities": [mincap, maxcap], "keys": "Int (unbounded)", "values": "Int (unbounded, Nil = 0)", "history_length": "unbounded (induction)",
+                  "not_covered": "capacity < 1 (default 64) and capacities > %d: Apalache's Gen(64) encoding did not finish within 28 min at design time; "
+                                 "the call/linearise/return layer (part 2 of LRU.tla) is covered by TLC only" % maxcap},
+        "copied_definitions_checked_against_LRU.tla": sorted(mine),
+    }
 
 
 def _conc(ctx, rounds, name):
